@@ -110,6 +110,12 @@ CHECKS = {
         text='An independent reference emitter renders a reference model under surface choices; the real lexer and parser parse it, payload tokens get symbolic text, the real reader must return the reference model (cardinalities incl. [n], [n..m], [n..*], keyword vs cardinality syntax; names quoted or plain). '
              'All 2^8 surface combinations run natively on sampled shapes; syntax-error documents are concrete runs counted apart. Bounded.',
         note='Trusted: CrossHair + patches, z3, the reference emitter in fmverif/props/c04.py, the lexer contract. N<=4/5. The negative half and the exhaustive surface sweep are concrete, not solver coverage.'),
+    'C02': dict(
+        category='model_checking', design_ref='6 C02',
+        technique='CrossHair symbolic execution (z3) of all six readers (dict / Element level, token substitution for UVL and AFM) on writer output and reference documents with symbolic cardinalities, followed by an attribute-walk of the structural invariants',
+        text='For every reader and every tree shape the document is produced from symbolic cardinalities and read by the real reader code; the result must be a proper tree (parents, owners, non-empty relations, attribute owners) with constraints in the consumable AST form. '
+             'Every depth<=2 constraint tree goes through every reader natively. Bounded.',
+        note='Trusted: CrossHair + patches, z3, the invariants in fmverif/props/c02.py, stubs of the file parsers as in the round-trip checks. N<=4/5.'),
 }
 
 NOT_YET = {}
